@@ -642,3 +642,8 @@ PROOF_MODULES = PROOF_MODULES + ['Compute.Props.C06Dev']
 REQUIRED_THEOREMS = REQUIRED_THEOREMS + ['Cv.C06D.deviance_textbook', 'Cv.C06D.poisson_deviance', 'Cv.C06D.bernoulli_deviance', 'Cv.C06D.gamma_deviance', 'Cv.C06D.gamma_deviance_split', 'Cv.C06D.unitDev_eq_zero_iff', 'Cv.C06D.deviance_nonneg', 'Cv.C06D.bernoulli_fractional_gap']
 NOT_PROVED = [x for x in NOT_PROVED if not any(k in str(x) for k in ('textbook closed forms',))]
 NOT_PROVED = NOT_PROVED + ["for fractional Bernoulli responses 0 < y < 1 (outside the property's quantifier: responses are 0/1) the source omits the saturated-model term of the textbook binomial deviance (bernoulli_fractional_gap)"]
+
+# --- source tie (translator tools/rs2lean.py: the straight-line functions of this property are regenerated from /repo/src on every run
+# into lean/Compute/Generated/SrcC06.lean and proved equal to the hand model in Props/SrcTieC06.lean)
+from . import srctie
+srctie.wire(globals(), 'C06')
